@@ -128,12 +128,12 @@ fn c09_case(reg: bool, kind: u8, name: &str, c: u8, n: u16, v: u16, rep: &mut Re
     rep.evaluations += 1;
     let rp = json!({"kind":"pn-message","constructor":name,"channel":c,"number":n,"value":v});
     match r {
-        None => rep.violation(
+        None => crate::viol!(rep, 
             format!("C09:panic:{}", name),
             format!("{}({}, {}, {}) or its encoding panicked", name, c, n, v),
             rp,
         ),
-        Some(Some(d)) => rep.violation(
+        Some(Some(d)) => crate::viol!(rep, 
             format!("C09:encoding:{}", name),
             format!("{}({}, {}, {}): {}", name, c, n, v, d),
             rp,
@@ -514,7 +514,7 @@ fn feed_unit(mon: &mut PnMon, hist: &mut Vec<Ev>, m: &PnM, events: &[Ev], what: 
         let want = if i + 1 == k { Some(*m) } else { None };
         if got != want {
             let h: &Vec<Ev> = hist;
-            rep.violation(
+            crate::viol!(rep, 
                 format!("C10:{}:{}", what, if i + 1 == k { "last-feed" } else { "early-feed" }),
                 format!(
                     "{}: feed #{} of {} ({}) returned {:?}, expected {:?}",
@@ -552,7 +552,7 @@ fn crate_encoding(m: &PnM, lsb_first: bool, rep: &mut Report) -> Vec<Ev> {
             })
             .collect(),
         None => {
-            rep.violation("C10:panic:encode", format!("encoding {:?} panicked", m), json!({"kind":"pn-message","message":m.json()}));
+            crate::viol!(rep, "C10:panic:encode", format!("encoding {:?} panicked", m), json!({"kind":"pn-message","message":m.json()}));
             vec![]
         }
     }
@@ -577,7 +577,7 @@ fn c10_message_after_state(base: &PnMon, prefix: &[String], m: &PnM, rep: &mut R
             rep.evaluations += 1;
             if got != want {
                 let h = &hist;
-                rep.violation(
+                crate::viol!(rep, 
                     format!("C10:encoding-after-prior-state:{}", if i + 1 == k { "last-feed" } else { "early-feed" }),
                     format!("feed #{} of {} ({}) returned {:?}, expected {:?}", i + 1, k, e.render(), got, want),
                     history_json("pn", None, &|| prefix.iter().cloned().chain(h.iter().map(|e| e.render())).collect(), json!(format!("{:?}", want)), json!(format!("{:?}", got))),
@@ -733,7 +733,7 @@ pub fn run_c10(cfg: &Cfg, rep: &mut Report) {
                 };
                 if got.is_some() {
                     let h: &Vec<Ev> = &hist;
-                    rep.violation(
+                    crate::viol!(rep, 
                         "C10:running-form:selection-reports",
                         format!("number selection byte {} returned {:?}", e.render(), got),
                         history_json("pn", None, &|| h.iter().map(|e| e.render()).collect(), json!("None"), json!(format!("{:?}", got))),
